@@ -8,6 +8,7 @@ package k8s
 
 import (
 	"fmt"
+	"net"
 	"strconv"
 	"strings"
 
@@ -422,6 +423,22 @@ func (np *NetworkPolicy) netpolErr(title, description string) error {
 }
 
 func (np *NetworkPolicy) parseNetpolCIDR(cidr string, except []string) (*netset.IPBlock, error) {
+	// only IPv4 is analysed. An IPv6 block (e.g. of a dual-stack policy) contains no IPv4 address: it selects nothing here,
+	// and an IPv6 except removes nothing from an IPv4 block (netset would read the first four bytes as an IPv4 address)
+	isIPv6 := func(c string) bool {
+		ip, _, err := net.ParseCIDR(c)
+		return err == nil && ip.To4() == nil
+	}
+	if isIPv6(cidr) {
+		return netset.NewIPBlock(), nil
+	}
+	ipv4Except := make([]string, 0, len(except))
+	for _, e := range except {
+		if !isIPv6(e) {
+			ipv4Except = append(ipv4Except, e)
+		}
+	}
+	except = ipv4Except
 	ipb, err := netset.IPBlockFromCidr(cidr)
 	if err != nil {
 		return nil, np.netpolErr(netpolerrors.CidrErrTitle, err.Error())
